@@ -146,6 +146,27 @@ Proof.
 Qed.
 Print Assumptions C10_cross_token_allowance_refuted.
 
+(* "an exact window": what the ledger allows does succeed.  approve by a non-zero owner for a non-zero spender; a
+   transfer / transferFrom to a non-zero recipient of an amount the holder can spend (balance minus locked vesting coins)
+   by the holder itself, or by a spender whose allowance is unlimited or covers the amount, returns true with the one
+   matching log (C10_move_exact / C10_approve_exact then say what the state is) *)
+Theorem C10_valid_call_succeeds : forall e s caller tok tm,
+  e_token e tok = Some tm -> caller <> 0 ->
+  (forall wsp wamt, addr_of wsp <> 0 ->
+     exists s', evm_call e s caller tok (Approve wsp wamt) =
+                (s', OOk (RBool true) [LApproval tok caller (addr_of wsp) (u256 wamt)])) /\
+  (forall wto wamt, addr_of wto <> 0 -> 0 <= locked s caller (tk_denom tm) ->
+     u256 wamt <= bal s caller (tk_denom tm) - locked s caller (tk_denom tm) ->
+     exists s', evm_call e s caller tok (Transfer wto wamt) =
+                (s', OOk (RBool true) [LTransfer tok caller (addr_of wto) (u256 wamt)])) /\
+  (forall wfrom wto wamt, addr_of wfrom <> 0 -> addr_of wto <> 0 -> 0 <= locked s (addr_of wfrom) (tk_denom tm) ->
+     u256 wamt <= bal s (addr_of wfrom) (tk_denom tm) - locked s (addr_of wfrom) (tk_denom tm) ->
+     can_spend s (addr_of wfrom) caller (u256 wamt) ->
+     exists s', evm_call e s caller tok (TransferFrom wfrom wto wamt) =
+                (s', OOk (RBool true) [LTransfer tok (addr_of wfrom) (addr_of wto) (u256 wamt)])).
+Proof. exact valid_call_succeeds. Qed.
+Print Assumptions C10_valid_call_succeeds.
+
 (* ---------------------------------------------------------------- calls made from contracts *)
 
 (* "directly or from contracts": one transaction whose contract code makes several ERC-20 calls from nested frames, some
